@@ -1,5 +1,7 @@
 """C19 - generated SQL DDL mirrors the CID."""
+import json
 import keyword
+import os
 import re
 import sys
 from decimal import Decimal
@@ -27,7 +29,8 @@ RULE = (
     "hash of (dialect, table, rows)."
 )
 ASSUMPTIONS = [
-    "the keyword set of a dialect is the data cutplace.sql attaches to it (dialect.keywords); membership is decided "
+    "the keyword set of a dialect is the union of the words recorded in vlib/sql_keywords.json (taken from the "
+    "dialects at a known-good state) and the words the running code lists (dialect.keywords); membership is decided "
     "here by lower-casing the name, not by calling is_keyword",
     "capacity table: T-SQL bit/tinyint/smallint/int/bigint/decimal(p<=38)/money; DB2 smallint/integer/bigint/"
     "decimal(p<=31); Oracle int=number(38), number(p<=38, s); ANSI smallint/int/bigint of implementation-defined "
@@ -47,8 +50,13 @@ DIALECT_NAMES = ["ANSI", "DB2", "Transact-SQL", "PL/SQL"]
 _IDENTIFIER = re.compile(r"^[A-Za-z][A-Za-z0-9_]*$")
 KEYWORDS = {}
 USABLE_KEYWORDS = {}
+# Reserved words recorded from the dialects at a known-good state (vlib/sql_keywords.json).  A word of that record
+# must stay quoted even if the running code no longer lists it (e.g. a dialect that lost its own list and fell back
+# to the ANSI one); words the running code adds are honoured too, so extending a list raises no alarm.
+with open(os.path.join(os.path.dirname(os.path.dirname(os.path.abspath(__file__))), "vlib", "sql_keywords.json")) as _f:
+    _RECORDED = json.load(_f)
 for _name in DIALECT_NAMES:
-    _words = sorted(str(w) for w in sql.SQL_NAME_TO_DIALECT_MAP[_name].keywords)
+    _words = sorted(set(str(w) for w in sql.SQL_NAME_TO_DIALECT_MAP[_name].keywords) | set(_RECORDED.get(_name, [])))
     KEYWORDS[_name] = frozenset(w.lower() for w in _words)
     USABLE_KEYWORDS[_name] = [w for w in _words if _IDENTIFIER.match(w)]
 
@@ -259,7 +267,12 @@ def check_case(sub, case, sample=True):
         return
     try:
         dialect = sql.SQL_NAME_TO_DIALECT_MAP[dialect_name]
-        statement = sql.SqlFactory(cid, table, dialect).create_table_statement()
+        factory = sql.SqlFactory(cid, table, dialect)
+        statement = factory.create_table_statement()
+        again = factory.create_table_statement()
+        if again != statement:
+            sub.fail("C19|statement-changes-on-second-call|%s" % dialect_name, case,
+                     "create_table_statement() called twice on one factory: first %r, then %r" % (statement, again))
     except Exception as error:
         sub.fail("C19|exception|%s|%s|%s" % (type(error).__name__, dialect_name, _innermost_cutplace_frame(error)),
                  case, "create_table_statement() for %r in dialect %s raised %s: %s" % (
